@@ -53,7 +53,9 @@ def cleanup():
 
 def _tlc_cmd(tla, cfg, metadir, workers, extra):
     lib = os.pathsep.join([SPEC, os.path.join(SPEC, "mc"), os.path.join(SPEC, "trace")])
-    return ["java", "-XX:+UseParallelGC", "-Xss64m", "-Xmx3g", f"-DTLA-Library={lib}", "-cp", CP, "tlc2.TLC",
+    jtmp = os.path.join(scratch(), "jtmp")       # TLC unpacks its standard modules into java.io.tmpdir on every start
+    os.makedirs(jtmp, exist_ok=True)
+    return ["java", "-XX:+UseParallelGC", "-Xss64m", "-Xmx3g", f"-Djava.io.tmpdir={jtmp}", f"-DTLA-Library={lib}", "-cp", CP, "tlc2.TLC",
             "-workers", str(workers), "-metadir", metadir, "-noGenerateSpecTE",
             "-config", cfg, *extra, tla]
 
